@@ -25,6 +25,9 @@ Record c12_case := mkCase {
   cs_diffs : list (string * string * string);      (* kind lost|added|changed, store, class *)
   cs_export2 : list string;                        (* modules whose second export differs from the first *)
   cs_probes : list string;                         (* further blocks / txs / queries answered differently *)
+  cs_sched_probes : list (string * string);        (* (restart schedule, probe): differences that appear only when the
+                                                      export is re-imported later / higher and both chains then get the
+                                                      same further blocks at the same later times *)
   cs_before : snap; cs_after : snap }.
 
 (* ---------------------------------------------------------------- helpers *)
@@ -114,6 +117,11 @@ Definition case_matches (c : c12_case) : bool :=
        && snap_matches (cs_before c) (cs_after c)
        && Bool.eqb (cs_version_panic c) upgrade_refuses_own_export   (* model of x/upgrade's version check *)
        && negb (gov_export_panics (registry_populated c))
+       (* the proposal model re-queues Pending / Enactment proposals whatever the genesis time: when InitGenesis
+          rebuilds the queues, no restart schedule may change what happens to proposals *)
+       && (negb gov_rebuilds_queues ||
+           negb (existsb (fun sp => (String.eqb (snd sp) "query:proposal-results-after-voting-and-enactment-time"
+                                     || String.eqb (snd sp) "query:max-tx-fee")%bool) (cs_sched_probes c)))
        (* the second export differs in gov exactly when role blacklists were dropped *)
        && Bool.eqb (str_in "customgov" (cs_export2 c)) (has_blacklist (cs_before c) && negb gov_restores_blacklists))%bool
   | RExportPanic m => (String.eqb m "customgov" && gov_export_panics (registry_populated c))%bool   (* AllDataRegistry writes into a nil map *)
@@ -142,6 +150,7 @@ Definition case_clauses (c : c12_case) : list string :=
       ++ map diff_clause (cs_diffs c)
       ++ map (fun m => ("export2:" ++ m)%string) (cs_export2 c)
       ++ map (fun p => ("diverge:" ++ p)%string) (cs_probes c)
+      ++ map (fun sp => ("diverge@" ++ fst sp ++ ":" ++ snd sp)%string) (cs_sched_probes c)
   end.
 
 Fixpoint violations_from (n : nat) (cs : list c12_case) : list (nat * list string) :=
